@@ -437,42 +437,82 @@ func Close[T any](ch chan<- T) {
 	s.keep = append(s.keep, ch) // keep the object alive: its address must not be reused by a new channel during this run
 }
 
-// Case is one alternative of a select.
-type Case struct {
-	enabled func() bool
-	native  reflect.SelectCase
+// Case is one alternative of a select.  The receive / send is performed by Select itself (after
+// the scheduler resumed the thread; natively through reflect.Select when uncontrolled) and the
+// received value is left in the typed holder.
+type Case interface {
+	enabled() bool
+	perform()
+	reflectCase() reflect.SelectCase
+	fromReflect(v reflect.Value, ok bool)
 }
 
-func RecvCase[T any](ch <-chan T) Case {
-	s := cur.Load()
-	c := Case{native: reflect.SelectCase{Dir: reflect.SelectRecv, Chan: reflect.ValueOf(ch)}}
-	if s != nil {
-		c.enabled = recvEnabled(s, ch)
+type RCase[T any] struct {
+	ch  <-chan T
+	en  func() bool
+	V   T
+	OK  bool
+}
+
+func RecvCase[T any](ch <-chan T) *RCase[T] {
+	c := &RCase[T]{ch: ch}
+	if s := cur.Load(); s != nil {
+		c.en = recvEnabled(s, ch)
 	}
 	return c
 }
-
-func SendCase[T any](ch chan<- T) Case {
-	s := cur.Load()
-	c := Case{}
-	if s != nil {
-		id := chanID(ch)
-		c.enabled = func() bool { return s.closed[id] || len(ch) < cap(ch) }
+func (c *RCase[T]) enabled() bool { return c.en != nil && c.en() }
+func (c *RCase[T]) perform()      { c.V, c.OK = <-c.ch }
+func (c *RCase[T]) reflectCase() reflect.SelectCase {
+	return reflect.SelectCase{Dir: reflect.SelectRecv, Chan: reflect.ValueOf(c.ch)}
+}
+func (c *RCase[T]) fromReflect(v reflect.Value, ok bool) {
+	c.OK = ok
+	if ok {
+		c.V, _ = v.Interface().(T) // a nil interface value (e.g. nil error) stays the zero value
 	}
-	return c
 }
 
-// Select returns the index of a case that is ready (chosen by the explorer among the enabled
-// ones), or -1 for default.  The caller then performs that case's native operation.
+type SCase[T any] struct {
+	ch chan<- T
+	v  T
+	s  *Sched
+}
+
+func SendCase[T any](ch chan<- T, v T) *SCase[T] { return &SCase[T]{ch: ch, v: v, s: cur.Load()} }
+func (c *SCase[T]) enabled() bool {
+	if c.ch == nil || c.s == nil {
+		return false
+	}
+	return c.s.closed[chanID(c.ch)] || len(c.ch) < cap(c.ch)
+}
+func (c *SCase[T]) perform() { c.ch <- c.v }
+func (c *SCase[T]) reflectCase() reflect.SelectCase {
+	return reflect.SelectCase{Dir: reflect.SelectSend, Chan: reflect.ValueOf(c.ch), Send: reflect.ValueOf(c.v)}
+}
+func (c *SCase[T]) fromReflect(reflect.Value, bool) {}
+
+// Select returns the index of the case that was performed (chosen by the explorer among the
+// enabled ones), or -1 for default.
 func Select(hasDefault bool, cases ...Case) int {
 	s, t := me()
 	if s == nil {
 		if aborting() {
 			panic(abortSignal{})
 		}
-		// uncontrolled: emulate with reflect.Select on receive cases only (no value consumed: we
-		// cannot un-receive, so uncontrolled selects are only supported on signal channels)
-		panic("vsched: Select outside a controlled thread")
+		rc := make([]reflect.SelectCase, 0, len(cases)+1)
+		for _, c := range cases {
+			rc = append(rc, c.reflectCase())
+		}
+		if hasDefault {
+			rc = append(rc, reflect.SelectCase{Dir: reflect.SelectDefault})
+		}
+		i, v, ok := reflect.Select(rc)
+		if i == len(cases) {
+			return -1
+		}
+		cases[i].fromReflect(v, ok)
+		return i
 	}
 	o := &op{kind: "select", label: "select", cases: cases}
 	o.enabled = func() bool {
@@ -487,6 +527,9 @@ func Select(hasDefault bool, cases ...Case) int {
 		return false
 	}
 	s.park(t, o)
+	if o.chosen >= 0 {
+		cases[o.chosen].perform()
+	}
 	return o.chosen
 }
 
